@@ -11,6 +11,61 @@ Definition script_of (mode k : nat) : script := fun i p =>
   | _ => WAccept
   end.
 
+(* ---- constant work per call: script_of compares the call index with k at
+   every call, which is linear in the index on unary numbers; on long write
+   lists the scripts are evaluated through a countdown instead. *)
+Fixpoint run_at (mode c : nat) (l : list (list N)) : bool * nat :=
+  match l with
+  | [] => (false, 0)
+  | p :: r =>
+      match c with
+      | 0 => match mode with
+             | 1 | 2 => (true, 0)
+             | 3 | 4 => (true, Nat.min (length p / 2) (length p))
+             | _ => let '(e, n) := run_at mode 0 r in (e, length p + n)
+             end
+      | S c' => let '(e, n) := run_at mode c' r in (e, length p + n)
+      end
+  end.
+
+Lemma script_of_before mode k i p : i < k -> script_of mode k i p = WAccept.
+Proof.
+  intros H. unfold script_of.
+  destruct mode as [|[|[|[|[|m]]]]]; try reflexivity.
+  - destruct (Nat.leb_spec k i); [lia | reflexivity].
+  - destruct (Nat.eqb_spec i k); [lia | reflexivity].
+  - destruct (Nat.eqb_spec i k); [lia|]. destruct (Nat.ltb_spec k i); [lia | reflexivity].
+  - destruct (Nat.eqb_spec i k); [lia | reflexivity].
+Qed.
+
+Lemma run_len_at mode k l : forall i, i <= k -> 1 <= mode <= 4 ->
+  run_len (script_of mode k) i l = run_at mode (k - i) l.
+Proof.
+  induction l as [|p r IH]; intros i Hi Hm; cbn [run_len run_at]; [reflexivity|].
+  destruct (Nat.eq_dec i k) as [->|Hne].
+  - rewrite Nat.sub_diag. unfold script_of.
+    destruct mode as [|[|[|[|[|m]]]]]; try lia.
+    + rewrite Nat.leb_refl. reflexivity.
+    + rewrite Nat.eqb_refl. reflexivity.
+    + rewrite Nat.eqb_refl. reflexivity.
+    + rewrite Nat.eqb_refl. reflexivity.
+  - rewrite script_of_before by lia.
+    replace (k - i) with (S (k - S i)) by lia.
+    rewrite IH by lia. reflexivity.
+Qed.
+
+Lemma fails_within_at mode k l : forall i, i <= k -> 1 <= mode <= 4 ->
+  fails_within (script_of mode k) i (checked l) = (k - i <? length l).
+Proof.
+  induction l as [|p r IH]; intros i Hi Hm; cbn [checked map fails_within length].
+  - destruct (k - i); reflexivity.
+  - fold (checked r). destruct (Nat.eq_dec i k) as [->|Hne].
+    + rewrite Nat.sub_diag. unfold script_of.
+      destruct mode as [|[|[|[|[|m]]]]]; try lia; rewrite ?Nat.leb_refl, ?Nat.eqb_refl; reflexivity.
+    + rewrite script_of_before by lia. cbn [faulty orb]. rewrite IH by lia.
+      replace (k - i) with (S (k - S i)) by lia. reflexivity.
+Qed.
+
 (* one scripted run as observed: Ok (error returned?, accepted bytes) | Panic *)
 Definition obs := res (bool * list N).
 
@@ -29,27 +84,114 @@ Definition C15_ok1 (chunks : list (list N)) (mode k : nat) (o : obs) : bool :=
   | _ => false
   end.
 
-(* the model: every call checked, stop at the first error *)
+(* the model: every call checked, stop at the first error.  Evaluated through
+   run_len (Proofs/WriterProofs.v, run_writes_len: the same result in linear
+   time); an observation given as "the first n bytes of the fault-free output"
+   is compared by n. *)
 Definition C15_corr1 (chunks : list (list N)) (mode k : nat) (o : obs) : bool :=
-  res_eqb pair_eqb (Ok (run_writes (script_of mode k) 0 (checked chunks) [])) o.
+  let '(e, n) := run_len (script_of mode k) 0 chunks in
+  res_eqb pair_eqb (Ok (e, firstn n (concat chunks))) o.
 
 (* accepted bytes arrive compressed: AP e n = "error e, accepted = the first n
    bytes of the fault-free output"; AB e b = explicit bytes *)
-Inductive aobs := AP (e : bool) (n : nat) | AB (e : bool) (b : list N) | APanic.
+(* n is shipped as a binary number: a unary nat literal of several thousand
+   would dominate the elaboration time *)
+Inductive aobs := AP (e : bool) (n : N) | AB (e : bool) (b : list N) | APanic.
 Definition decode_obs (chunks : list (list N)) (a : aobs) : obs :=
   match a with
-  | AP e n => Ok (e, firstn n (concat chunks))
+  | AP e n => Ok (e, firstn (N.to_nat n) (concat chunks))
   | AB e b => Ok (e, b)
   | APanic => Panic
   end.
-Definition decode_runs (c : list (list N) * list (nat * nat * aobs)) : list (list N) * list (nat * nat * obs) :=
-  (fst c, map (fun '(m, k, a) => (m, k, decode_obs (fst c) a)) (snd c)).
+(* mode and call index arrive as binary numbers too *)
+Definition decode_runs (c : list (list N) * list (N * N * aobs)) : list (list N) * list (nat * nat * obs) :=
+  (fst c, map (fun '(m, k, a) => (N.to_nat m, N.to_nat k, decode_obs (fst c) a)) (snd c)).
 
-Definition C15_case (c0 : list (list N) * list (nat * nat * aobs)) : N :=
-  let '(chunks, runs) := decode_runs c0 in
-  code (forallb (fun '(mode, k, o) => C15_corr1 chunks mode k o) runs)
-       (forallb (fun '(mode, k, o) => C15_ok1 chunks mode k o) runs).
+Definition in_modes (mode : nat) : bool := (1 <=? mode) && (mode <=? 4).
 
-Definition C15_model (c0 : list (list N) * list (nat * nat * aobs)) :=
+Definition C15_corr_a (chunks : list (list N)) (total : nat) (mode k : nat) (a : aobs) : bool :=
+  let '(e, n) := if in_modes mode then run_at mode k chunks else run_len (script_of mode k) 0 chunks in
+  match a with
+  | AP e' n' => Bool.eqb e e' && (Nat.min n total =? Nat.min (N.to_nat n') total)
+  | AB e' b => Bool.eqb e e' && bytes_eqb (firstn n (concat chunks)) b
+  | APanic => false
+  end.
+
+(* the property on a compressed observation: "the first n bytes of the
+   fault-free output" is a prefix of it by construction (firstn_is_prefix
+   below), so only the error flag and completeness remain to be judged; an
+   explicit byte string goes through C15_ok1 *)
+Lemma firstn_is_prefix n (out : list N) : prefixb (firstn n out) out = true.
+Proof.
+  apply prefixb_spec. exists (skipn n out). symmetry. apply firstn_skipn.
+Qed.
+
+Definition C15_ok_a (chunks : list (list N)) (total : nat) (mode k : nat) (a : aobs) : bool :=
+  match a with
+  | AP e n =>
+      if (if in_modes mode then k <? length chunks else fails_within (script_of mode k) 0 (checked chunks)) then e
+      else negb e && (total <=? N.to_nat n)
+  | AB e b => C15_ok1 chunks mode k (Ok (e, b))
+  | APanic => false
+  end.
+
+Definition C15_case (c0 : list (list N) * list (N * N * aobs)) : N :=
+  let total := length (concat (fst c0)) in
+  code (forallb (fun '(mode, k, a) => C15_corr_a (fst c0) total (N.to_nat mode) (N.to_nat k) a) (snd c0))
+       (forallb (fun '(mode, k, a) => C15_ok_a (fst c0) total (N.to_nat mode) (N.to_nat k) a) (snd c0)).
+
+(* C15_ok_a is C15_ok1 on the decoded observation *)
+Lemma C15_ok_a_spec chunks mode k a :
+  C15_ok_a chunks (length (concat chunks)) mode k a = C15_ok1 chunks mode k (decode_obs chunks a).
+Proof.
+  destruct a as [e n|e b|]; cbn [C15_ok_a decode_obs C15_ok1]; try reflexivity.
+  rewrite firstn_is_prefix. cbn [andb].
+  assert (Hf : (if in_modes mode then k <? length chunks else fails_within (script_of mode k) 0 (checked chunks))
+               = fails_within (script_of mode k) 0 (checked chunks)).
+  { unfold in_modes. destruct (Nat.leb_spec 1 mode); destruct (Nat.leb_spec mode 4); cbn [andb]; try reflexivity.
+    rewrite fails_within_at by lia. rewrite Nat.sub_0_r. reflexivity. }
+  rewrite Hf.
+  destruct (fails_within (script_of mode k) 0 (checked chunks)); [reflexivity|].
+  destruct e; cbn [negb andb]; [reflexivity|].
+  destruct (Nat.leb_spec (length (concat chunks)) (N.to_nat n)) as [H|H].
+  - rewrite firstn_all2 by exact H. symmetry. apply bytes_eqb_refl.
+  - symmetry. apply Bool.not_true_iff_false. intros E. apply bytes_eqb_eq in E.
+    apply (f_equal (@length N)) in E. rewrite firstn_length in E. lia.
+Qed.
+
+Definition C15_model (c0 : list (list N) * list (N * N * aobs)) :=
   let '(chunks, runs) := decode_runs c0 in
-  map (fun '(mode, k, o) => (mode, k, run_writes (script_of mode k) 0 (checked chunks) [])) runs.
+  map (fun '(mode, k, o) => (mode, k, run_len (script_of mode k) 0 chunks)) runs.
+
+
+(* ---- compact shipping of the scripted runs: one 63-bit word per run
+   (bits 0-2 mode, 3 error flag, 4-5 kind: 0 = AP, 1 = AB, 2 = panic,
+   6-25 call index, 26-57 n); the rare explicit byte strings (AB) come in a side
+   list in order of occurrence.  Long Coq list literals of tuples elaborate
+   very slowly; primitive integers do not. *)
+Definition w_field (w : int) (shift width : int) : N :=
+  Z.to_N (Uint63.to_Z (Uint63.land (Uint63.lsr w shift) (Uint63.sub (Uint63.lsl 1%uint63 width) 1%uint63))).
+
+Fixpoint decode_words (ws : list int) (side : list (list N)) : list (N * N * aobs) :=
+  match ws with
+  | [] => []
+  | w :: r =>
+      let mode := w_field w 0%uint63 3%uint63 in
+      let e := N.eqb (w_field w 3%uint63 1%uint63) 1 in
+      let kind := w_field w 4%uint63 2%uint63 in
+      let k := w_field w 6%uint63 20%uint63 in
+      let n := w_field w 26%uint63 32%uint63 in
+      match kind with
+      | 0%N => (mode, k, AP e n) :: decode_words r side
+      | 1%N => match side with
+               | b :: side' => (mode, k, AB e b) :: decode_words r side'
+               | [] => (mode, k, APanic) :: decode_words r side
+               end
+      | _ => (mode, k, APanic) :: decode_words r side
+      end
+  end.
+
+Definition C15_wcase (c : list (list N) * list int * list (list N)) : N :=
+  let '(chunks, ws, side) := c in C15_case (chunks, decode_words ws side).
+Definition C15_wmodel (c : list (list N) * list int * list (list N)) :=
+  let '(chunks, ws, side) := c in C15_model (chunks, decode_words ws side).
